@@ -2,6 +2,7 @@ import ComposeVerif.Lemmas.TravInvS
 import ComposeVerif.Lemmas.TravLive
 import ComposeVerif.Gen.Globals
 import ComposeVerif.Neg.C19Traversal
+import ComposeVerif.Lemmas.TravLocked
 /-!
 # C19 — the dependency-ordered traversal is free of deadlocks and terminates
 
@@ -70,6 +71,15 @@ theorem traversal_can_finish {g : Graph} {lim : Option Nat} (hg : GraphOK g) (hl
 theorem traversal_limit_is_the_sources :
     CV.Gen.travSetLimitArgs = ["t.maxConcurrency + 1"] ∧ CV.Gen.travSetLimitGuards = ["t.maxConcurrency > 0"] := by
   decide
+
+/-- **the walk writes `t.status` only through the lock-guarded sections**: every step of the traversal model leaves the
+    status map unchanged, or applies the section `enterF v` (`enter` on an absent vertex), or the section `doneF v`
+    (`wDone`) to it — the sections whose source is pinned by `traversal_sections_source_is_modelled` and whose interleavings
+    are serialisable by `CV.Locked.locked_serializable` (so one atomic model step per section is sound) -/
+theorem traversal_status_written_only_by_sections {g : Graph} {lim : Option Nat} {s s' : St} {l : Label}
+    (h : step? g lim s l = some s') :
+    stL s' = stL s ∨ (∃ v, stL s' = CV.Locked.enterF v (stL s)) ∨ (∃ v, stL s' = CV.Locked.doneF v (stL s)) :=
+  status_step_sections h
 
 /-! non-vacuity: a graph satisfying `GraphOK` with a real choice of schedules -/
 def chain : Graph :=
